@@ -6,3 +6,4 @@ import r_c07  # noqa: F401
 import r_c09  # noqa: F401
 import r_c11  # noqa: F401
 import r_c18  # noqa: F401
+import r_c03  # noqa: F401
